@@ -892,7 +892,13 @@ def gen_C13(rng):
         cfg['multipart_chunksize'] = 64
         cfg['max_bandwidth'] = rng.choice([8, 16, 64])
         main = sc['transfers'][0]
-        main['size'] = rng.randint(1, thr - 1)
+        # the limiter counts the amounts ASKED for: with 1-byte socket reads of
+        # a body of at most 6 bytes (one more read finds EOF) the stream stays
+        # below the threshold of 16 and is charged exactly once, when it is closed
+        main['size'] = rng.randint(1, 6)
+        main.pop('short_seekable', None)
+        main['short_src'] = False
+        sc['knobs']['sock_chunk'] = 1
         for sub in main['subs']:
             if sub.get('provide_size') is not None:
                 sub['provide_size'] = main['size']
